@@ -13,6 +13,7 @@ import (
 	"os/exec"
 	"path/filepath"
 	"reflect"
+	"runtime"
 	"sort"
 	"strings"
 	"sync"
@@ -37,7 +38,12 @@ type SegRec struct {
 }
 
 type SegOp struct {
-	Op     string   `json:"op"` // commit | spend | dump | close
+	Op string `json:"op"` // commit | gen | spend | close
+	// gen: commit one block of Count generated records with Outs outputs each (genRec(seed, Block, i, Outs))
+	Seed   int64    `json:"seed,omitempty"`
+	Block  int      `json:"block,omitempty"`
+	Count  int      `json:"count,omitempty"`
+	Outs   int      `json:"outs,omitempty"`
 	Height uint32   `json:"height"`
 	Hash   string   `json:"hash"`
 	Recs   []SegRec `json:"recs,omitempty"`
@@ -178,7 +184,10 @@ func cmdSeg(args []string) {
 		os.Exit(2)
 	}
 	utxo.UTXO_WRITING_TIME_TARGET = 0
-	limitCPU(120)
+	limitCPU(300)
+	if runtime.GOMAXPROCS(0) < 4 {
+		runtime.GOMAXPROCS(4) // UnspentDB.commit and the snapshot loader are concurrent: let them be
+	}
 	var dumps []SegDump
 	flush := func() {
 		jb, _ := json.Marshal(dumps)
@@ -209,6 +218,12 @@ func cmdSeg(args []string) {
 					ch.AddList = append(ch.AddList, op.Recs[i].toUtxo())
 				}
 				db.CommitBlockTxs(ch, hash)
+			case "gen":
+				ch := &utxo.BlockChanges{Height: op.Height}
+				for i := 0; i < op.Count; i++ {
+					ch.AddList = append(ch.AddList, genRec(op.Seed, op.Block, i, op.Outs).Build())
+				}
+				db.CommitBlockTxs(ch, hash)
 			case "spend":
 				var id [32]byte
 				tb, _ := hex.DecodeString(op.TxID)
@@ -234,6 +249,160 @@ func cmdSeg(args []string) {
 	flush()
 }
 
+// raceReport returns the first report of the Go race detector in a child's stderr ("" when there is none).
+func raceReport(stderr string) string {
+	i := strings.Index(stderr, "WARNING: DATA RACE")
+	if i < 0 {
+		return ""
+	}
+	rep := stderr[i:]
+	if j := strings.Index(rep[18:], "=================="); j >= 0 {
+		rep = rep[:18+j]
+	}
+	if len(rep) > 3000 {
+		rep = rep[:3000]
+	}
+	return rep
+}
+
+// raceFails turns race reports into failures: a race inside gocoin's library code while records are stored is a
+// record about to be stored changed; a race anywhere else is the harness' own problem.
+func raceFails(dumps []SegDump, scope string) (fails []Fail, infra string) {
+	for _, d := range dumps {
+		if d.Op != "race" {
+			continue
+		}
+		switch {
+		case strings.Contains(d.Err, "gocoin/lib/utxo"):
+			fails = append(fails, Fail{Sig: "C10:" + scope + ":race:lib/utxo", What: "the race detector reports unsynchronised access inside lib/utxo while records are stored / read back: " + d.Err})
+		case strings.Contains(d.Err, "gocoin/lib/"):
+			fails = append(fails, Fail{Sig: "C10:" + scope + ":race:lib", What: "the race detector reports unsynchronised access inside gocoin's library code while records are stored / read back: " + d.Err})
+		default:
+			infra = "race report outside gocoin: " + d.Err
+		}
+	}
+	return
+}
+
+// genRec: record number i of generated block `block`.  outs = 1: a minimal record (one tiny output).  outs > 1: equal-size
+// outputs (every transaction has the same layout, so a mixed-up scratch entry changes content, not lengths), all
+// amounts and scripts distinct.
+func genRec(seed int64, block, i, outs int) *CRec {
+	c := &CRec{TxID: txidOf("gen", seed, block, i), H: uint32(block), CB: i%2 == 0, N: outs}
+	if outs == 1 {
+		c.Outs = []COut{{I: 0, V: uint64(1 + i%200), Scr: []byte{0x51}, Cls: "gen", ACls: "gen"}}
+		return c
+	}
+	hs := hashN(20*outs, "genh", seed, block, i)
+	for o := 0; o < outs; o++ {
+		h := hs[20*o : 20*o+20]
+		scr := p2pkh(h)
+		if o%4 == 3 {
+			scr[24] = 0xad // not the template: stored with the len+6 escape
+		}
+		v := 3000000001 + uint64(i*64+o)*10 + uint64(o%9)
+		c.Outs = append(c.Outs, COut{I: o, V: v, Scr: scr, Cls: "gen", ACls: "gen"})
+	}
+	return c
+}
+
+// replayBulk: a generated set (sizes around the loader's pack size, or wide blocks that make UnspentDB.commit serialise
+// from many goroutines) is committed, read back in the same process, saved, and read back in a new process.
+func replayBulk(st *Stats, j recJob, seed int64, work string, nFail, nInfra *int64, mu *sync.Mutex) (steps, procs int) {
+	ln := j.line
+	dir := filepath.Join(work, "db")
+	os.RemoveAll(work)
+	os.MkdirAll(dir, 0777)
+	defer os.RemoveAll(work)
+	count, outs, optC := ln.C.N, ln.C.X, ln.C.Y == 1
+	blocks := 1
+	if ln.C.K == "wide" {
+		blocks = 2
+	}
+	put := func(fails []Fail, infra string) bool {
+		if infra != "" {
+			out.Put(Fail{N: j.n, Kind: "infra", What: infra, Line: j.raw})
+			mu.Lock()
+			*nInfra++
+			mu.Unlock()
+			return true
+		}
+		seen := map[string]bool{}
+		for _, f := range fails {
+			if !seen[f.Sig] {
+				seen[f.Sig] = true
+				f.N, f.Line = j.n, j.raw
+				out.Put(f)
+				mu.Lock()
+				*nFail++
+				mu.Unlock()
+			}
+		}
+		return len(fails) > 0
+	}
+	want := map[[32]byte]*CRec{}
+	sc := &SegScript{Dir: dir, OptC: optC, Sparse: true}
+	if outs > 1 {
+		sc.Gets = 2
+	}
+	for b := 1; b <= blocks; b++ {
+		sc.Ops = append(sc.Ops, SegOp{Op: "gen", Height: uint32(b), Hash: blockHash(seed, 0, b), Seed: seed, Block: b, Count: count, Outs: outs})
+		for i := 0; i < count; i++ {
+			c := genRec(seed, b, i, outs)
+			want[c.TxID] = c
+		}
+	}
+	sc.Ops = append(sc.Ops, SegOp{Op: "close"})
+	judge := func(dumps []SegDump, scope, where string, file []byte) bool {
+		fails, infra := raceFails(dumps, scope)
+		for i := range dumps {
+			d := &dumps[i]
+			if d.Op == "race" || d.Op == "skipped" || (d.Op == "close" && d.Err == "") || (d.Op == "open" && file == nil) {
+				continue
+			}
+			steps++
+			st.add(1+len(d.Recs)+len(d.Gets), nil)
+			fl := compareSet(want, d, fmtOf(optC), scope)
+			if d.Err == "" && d.Count != len(want) {
+				fl = append(fl, Fail{Sig: sigOf(scope, fmtOf(optC), Diff{"set", "", ""}), What: fmt.Sprintf("%d records in the set, %d were stored", d.Count, len(want))})
+			}
+			if file != nil {
+				fl = relabel(fl, file, want)
+			}
+			for k := range fl {
+				fl[k].What = where + ": " + fl[k].What
+			}
+			fails = append(fails, fl...)
+			if len(fl) > 0 {
+				break
+			}
+		}
+		return put(fails, infra)
+	}
+	dumps, err := runSeg(sc, work)
+	procs++
+	if err != nil {
+		put(nil, "child: "+err.Error())
+		return
+	}
+	scope := "snap:create=" + fmtOf(optC)
+	if judge(dumps, scope+":live", fmt.Sprintf("%d blocks of %d records with %d outputs, read back in the process that committed them", blocks, count, outs), nil) {
+		return
+	}
+	file, _ := os.ReadFile(filepath.Join(dir, "UTXO.db"))
+	if file == nil {
+		file = []byte{}
+	}
+	dumps, err = runSeg(&SegScript{Dir: dir, OptC: optC, Gets: sc.Gets, Ops: []SegOp{{Op: "close"}}}, work)
+	procs++
+	if err != nil {
+		put(nil, "child: "+err.Error())
+		return
+	}
+	judge(dumps, scope+":reloaded", fmt.Sprintf("%d blocks of %d records with %d outputs, saved and reloaded in a new process", blocks, count, outs), file)
+	return
+}
+
 var selfExe = func() string { e, _ := os.Executable(); return e }()
 
 func runSeg(sc *SegScript, work string) ([]SegDump, error) {
@@ -255,7 +424,9 @@ func runSeg(sc *SegScript, work string) ([]SegDump, error) {
 			return nil, err
 		}
 	}
-	if runErr != nil {
+	if rep := raceReport(stderr.String()); rep != "" {
+		dumps = append(dumps, SegDump{Op: "race", Err: rep})
+	} else if runErr != nil {
 		tail := stderr.String()
 		if i := strings.Index(tail, "panic:"); i >= 0 {
 			tail = tail[i:]
@@ -272,8 +443,12 @@ func runSeg(sc *SegScript, work string) ([]SegDump, error) {
 // records are in. Differences that the record-level round trip of that record in that codec reproduces are
 // attributed to the record-level signature (same root cause), all others carry the snapshot scope.
 func compareSet(want map[[32]byte]*CRec, d *SegDump, fileFmt string, scope string) (fails []Fail) {
-	add := func(sc, fm string, df Diff) {
-		fails = append(fails, Fail{Sig: sigOf(sc, fm, df), What: df.What, Fmt: fm})
+	seenSig := map[string]bool{}
+	add := func(sc, fm string, df Diff) { // one failure per signature: many repeats of one cause must not hide another
+		if sig := sigOf(sc, fm, df); !seenSig[sig] {
+			seenSig[sig] = true
+			fails = append(fails, Fail{Sig: sig, What: df.What, Fmt: fm})
+		}
 	}
 	if d.Err != "" {
 		add(scope, fileFmt, Diff{"panic", "", d.Err})
@@ -335,9 +510,6 @@ func compareSet(want map[[32]byte]*CRec, d *SegDump, fileFmt string, scope strin
 			o = &btc.TxOut{Value: g.V, Pk_script: s, BlockHeight: g.H, WasCoinbase: g.CB, VoutCount: g.Cnt}
 		}
 		attrib(cr, compareOne(cr, g.Vout, o, "UnspentGet"))
-	}
-	if len(fails) > 12 {
-		fails = fails[:12]
 	}
 	return
 }
@@ -432,12 +604,13 @@ func readHeader(dir string) (height uint64, bit bool, hash []byte, count uint64,
 // that behaviours sharing a prefix (TLC exports one per transition) run every process once.  A single line
 // replayed alone computes everything itself.
 type segEntry struct {
-	once  sync.Once
-	files map[string][]byte // the data directory after the process
-	fails []Fail
-	infra string
-	steps int
-	obs   [2]int64
+	once     sync.Once
+	files    map[string][]byte // the data directory after the process
+	fails    []Fail
+	diverged bool // a failure that is not explained at the record level: the later steps are not judged
+	infra    string
+	steps    int
+	obs      [2]int64
 }
 
 var (
@@ -509,14 +682,14 @@ func replaySnap(k *Keys, st *Stats, j recJob, seed int64, work string, nFail, nI
 			mu.Unlock()
 			return
 		}
-		if len(ent.fails) > 0 {
-			for _, f := range ent.fails {
-				f.N, f.Line = j.n, j.raw
-				out.Put(f)
-				mu.Lock()
-				*nFail++
-				mu.Unlock()
-			}
+		for _, f := range ent.fails {
+			f.N, f.Line = j.n, j.raw
+			out.Put(f)
+			mu.Lock()
+			*nFail++
+			mu.Unlock()
+		}
+		if ent.diverged {
 			return // the states have diverged
 		}
 		prev = ent.files
@@ -646,14 +819,23 @@ func runSegment(ent *segEntry, ln *JLine, first, end int, dir, work string, seed
 		ent.steps += len(d.Gets)
 		if len(fails) > 0 {
 			seen := map[string]bool{}
+			for _, f := range ent.fails {
+				seen[f.Sig] = true
+			}
 			for _, f := range fails {
+				if !strings.HasPrefix(f.Sig, "C10:rec:") {
+					ent.diverged = true
+				}
 				if !seen[f.Sig] {
 					seen[f.Sig] = true
 					f.What = fmt.Sprintf("step %d (%s): %s", si+1, s.A, f.What)
 					ent.fails = append(ent.fails, f)
 				}
 			}
-			return
+			// a difference that the record codec alone reproduces leaves the set as the model has it: go on
+			if ent.diverged {
+				return
+			}
 		}
 	}
 }
